@@ -65,7 +65,7 @@ PROPS = {
              "x obsolete items{present,absent} = 1440 cells, enumerated completely; per cell the values and the 'other' string come from seeded generators. Each cell = a preparation run and one real process of a "
              "data-driven test program (real environment variables, real TestMain + snaps.Clean); the observed call outcome and the directory delta are compared with the statement's table written as a pure function. "
              "The pre-existing snapshot is presented as the library wrote it, or (every 4th multi-entry cell) converted to CRLF line ends, or (every 3rd standalone cell with an existing file) as a symbolic link to the real file, or (cells without sort/obsolete items) with a second entry of an id that occurs already; CI cells are recognised as CI through one of eight variables (CI, BUILD_NUMBER, RUN_ID, CI_NAME, CONTINUOUS_INTEGRATION, BUILD_ID, GITHUB_ACTIONS); every fifth cell runs with a foreign working directory. "
-             "Round 6: sparse-state table (720 cells): snapshot directory absent, present but EMPTY, or an addressed file that only holds entries of tests that no longer exist, x CI x Update option x UPDATE_SNAPS x sort x API. Round 7: values `---`, `---\\n`, empty (stored and received) in the table. Round 8: cells run with -test.shuffle=on / a seed; cells in which the test has already failed (a missing snapshot through Update(false)) before the call of the cell. non-trivial = cells in which a create, rewrite, delete or sort is requested by the situation; every cell is distinct",
+             "Round 6: sparse-state table (720 cells): snapshot directory absent, present but EMPTY, or an addressed file that only holds entries of tests that no longer exist, x CI x Update option x UPDATE_SNAPS x sort x API. Round 7: values `---`, `---\\n`, empty (stored and received) in the table. Round 8: cells run with -test.shuffle=on / a seed; cells in which the test has already failed (a missing snapshot through Update(false)) before the call of the cell. Round 9: cells run with -test.count=2 (the second execution passes after added/updated, fails again where nothing may be written). non-trivial = cells in which a create, rewrite, delete or sort is requested by the situation; every cell is distinct",
         assumptions=["black-box: scenario program compiled against /repo with `replace`, executed with an explicit minimal environment", "UPDATE_SNAPS and CI are read by the real init code of the process"],
         stages=[dict(name="table", engine="bb", run="^TestC05_", quick=1, thorough=1, shards_quick=8, shards_thorough=16)],
     ),
